@@ -53,11 +53,12 @@ Definition plen_ccsds (hdr : list Z) : nat :=
 Definition TRIM : Z := 20000000%Z.
 
 (* source kinds: 0 = bytes object (pre-buffered, reader yields nothing), 1 = file object, 2 = socket *)
-Definition frame (kind : Z) (k : nat) (stream : list Z) (chunks : list (list Z)) : option (list (list Z)) :=
+Definition frameT (T : Z) (kind : Z) (k : nat) (stream : list Z) (chunks : list (list Z)) : option (list (list Z)) :=
   let fuel := S (length stream + length (concat chunks)) in
-  if (kind =? 0)%Z then loop plen_ccsds fuel TRIM k (Some (length stream)) stream 0 0 []
-  else if (kind =? 1)%Z then loop plen_ccsds fuel TRIM k (Some (length (concat chunks))) [] 0 0 chunks
-  else loop plen_ccsds fuel TRIM k None [] 0 0 chunks.
+  if (kind =? 0)%Z then loop plen_ccsds fuel T k (Some (length stream)) stream 0 0 []
+  else if (kind =? 1)%Z then loop plen_ccsds fuel T k (Some (length (concat chunks))) [] 0 0 chunks
+  else loop plen_ccsds fuel T k None [] 0 0 chunks.
+Definition frame := frameT TRIM.
 
 (* ---- specification side ---- *)
 Definition encode (pps : list (list Z * list Z)) : list Z := concat (map (fun pp => fst pp ++ snd pp) pps).
